@@ -740,6 +740,7 @@ pub fn c12(c: &mut Collector, seed: u64, shard: u64, nshards: u64, thorough: boo
         let mut rng = Rng::new(mix3(seed, shard, 0x3A7E));
         workload::special_mate_family(&mut rng, if thorough { 6000 } else { 700 }, &mut crafted);
         workload::pinned_capture_mate_family(&mut rng, shard, nshards, &mut crafted);
+        workload::interposition_near_mate_family(&mut rng, shard, nshards, &mut crafted);
         for cr in crafted {
             let mut p = cr.pre.clone();
             for m in &cr.moves {
@@ -750,6 +751,7 @@ pub fn c12(c: &mut Collector, seed: u64, shard: u64, nshards: u64, thorough: boo
                 "ep-mate-pinned-capturer" => "ep-mate-pinned-capturer",
                 "castle-mate" => "castle-mate",
                 "pinned-piece-captures-pinner-mate" => "pinned-piece-captures-pinner-mate",
+                "interposition-near-mate" => "interposition-near-mate",
                 "promotion-mate-knight" => "promotion-mate-knight",
                 "promotion-mate-bishop" => "promotion-mate-bishop",
                 "promotion-mate-rook" => "promotion-mate-rook",
